@@ -196,7 +196,7 @@ func verifC06(native bool, nEntries int, integer bool) {
 	zz.Reach("C06/done")
 }
 
-func VerifC06Native()    { verifC06(true, 2, false) }
+func VerifC06Native() { verifC06(true, 2, false) }
 
 // vC06BigHeaders switches the first entry's header to 255/256/257/512 extension blocks.
 var vC06BigHeaders bool
